@@ -257,6 +257,8 @@ Preprocess ==
     /\ hist' = Log([a |-> "pre", ub |-> ub', actv |-> actv'])
     /\ UNCHANGED <<net, ses, opt, obs, lb, mrate, queue, pilot, lvl, ridx, stopAt, served, verdict>>
 
+TruncA(x) == (x \div U) * U        \* whole amperes (storing a float into an integer numpy array)
+
 (* apply_minimum_charging_rate, one session: it gets the EVSE's minimum pilot as lower bound if   *)
 (* it still needs that much and the minimum pilots granted so far plus this one are feasible;      *)
 (* otherwise it is not charged at all in this period.                                              *)
@@ -265,9 +267,16 @@ MinRate ==
     /\ LET s  == Head(mq)
            r  == [mrate EXCEPT ![s] = MinP(s)]
            ok == MinP(s) <= Rem(s) /\ Feasible(r)
+           \* session.min_rates is the integer array the Interface builds from the scalar 0, so the
+           \* assignment min_rates[0] = max(minimum pilot, min_rates[0]) TRUNCATES a fractional minimum
+           \* pilot (7.5 A -> 7): a named deviation of the code from its documentation, modelled as it
+           \* is.  (The feasibility test above uses the untruncated minimum pilot.)  Harmless for the
+           \* pilots emitted - levels are chosen from [lb, ub] - but it does change what "the other
+           \* sessions at their lower bound" means while higher-priority sessions are served.
+           nl == TruncA(Max2(MinP(s), lb[s]))
        IN /\ IF ok
-             THEN /\ lb' = [lb EXCEPT ![s] = Max2(MinP(s), lb[s])]
-                  /\ ub' = [ub EXCEPT ![s] = Max2(ub[s], Max2(MinP(s), lb[s]))]   \* reconcile_max_and_min
+             THEN /\ lb' = [lb EXCEPT ![s] = nl]
+                  /\ ub' = [ub EXCEPT ![s] = Max2(ub[s], nl)]   \* reconcile_max_and_min
                   /\ mrate' = r
              ELSE /\ lb' = [lb EXCEPT ![s] = 0] /\ ub' = [ub EXCEPT ![s] = 0] /\ UNCHANGED mrate
           /\ dec' = Dec(Sure(r) /\ Cmp(MinP(s), Rem(s)))
@@ -449,7 +458,11 @@ Spec == Init /\ [][Next]_vars
 Settled  == pc \in {"serve", "done", "emitted"}
 Sorted   == opt.algo # "unc"
 OutputFeasible       == (Settled /\ Sorted) => Feasible(pilot)
-LevelsAllowed        == Settled => PLevels(pilot)
+\* (while the greedy loop is still running, a session that has not been served yet sits at its
+\* lower bound, which - being stored truncated, see MinRate - need not be a level; every session
+\* that HAS been served, every round-robin state and every final schedule is on allowed levels)
+Unserved == IF pc = "serve" /\ opt.algo = "greedy" THEN {queue[k] : k \in 1..Len(queue)} ELSE {}
+LevelsAllowed        == Settled => PLevels([s \in St |-> IF s \in Unserved THEN 0 ELSE pilot[s]])
 WithinDemand         == (Settled /\ Sorted) => PDemand(pilot)
 WithinEstimatorOrMin == (Settled /\ Sorted) => PEstimator(pilot)
 ZeroForInactive      == Settled => PInactive(pilot)
